@@ -332,19 +332,21 @@ CLAIMED['C02'] = dict(
              "omitted arguments, nested arbitrarily - pre-pass + shunting-yard + _build_ast applied to its token "
              "string return exactly its meaning), C02_rpn (the RPN is its postfix form with the right argument "
              "counts), C02_precedence_table (the levels the proofs use are the generated Token.precedences), "
-             "C02_op_map (generated op_map: ^ -> **, = -> ==, <> -> !=). PARTIAL: C02_emit_partial (the emitted "
-             "code is precedence-correct in Python's grammar and denotes the Python tree that means e, for the "
-             "arithmetic fragment and PROVIDED no prefix minus is the left operand of ^; missing: that proviso "
-             "and the uniqueness of Python's parse, which is checked against CPython), C02_text_partial (a text "
-             "literal of any length without backslash / LF / CR compiles to a Python literal that decodes to "
-             "exactly its characters; missing: those three characters), C02_number_partial (integer literals "
-             "without superfluous leading zeros; missing: leading zeros; decimals/exponents correspondence only). "
-             "REFUTED in the faithful model (advisory, extra targets): Refuted/C02_emit_neg_pow.v (e = (-2)^2 is "
-             "emitted as '-2 ** 2', the flattening of the Python tree -(2**2)), Refuted/C02_literals.v ('a\\nb' "
-             "decodes to a line feed, 'a\\' is not a complete literal, 007 is not a Python literal). "
+             "C02_op_map (generated op_map: ^ -> **, = -> ==, <> -> !=), C02_emit (for every expression of the "
+             "arithmetic fragment - literals, plain references, prefix -, postfix %, the 12 operators, ordinary "
+             "calls - and every parent context the emitted code is precedence-correct in Python's grammar and "
+             "denotes the Python tree that means e; unconditional since the fix db0afb2, which parenthesises a "
+             "prefix minus below ^), C02_text (every text literal - any characters, incl. quotes, backslashes, "
+             "LF, CR - compiles to a Python literal that decodes to exactly its characters; fix db52b98). "
+             "PARTIAL: C02_number_partial (integer literals without superfluous leading zeros denote their "
+             "value; missing: leading zeros - known finding C02-number-leading-zeros, refuted in "
+             "Refuted/C02_literals.v (007 is not a Python literal; advisory, extra target); decimals/exponents "
+             "correspondence only). Known finding C02-logical-lowercase (=true is tokenised as a name) is "
+             "outside the models (tokenizer) and reproduced by the oracle. "
              "CORRESPONDENCE-ONLY: the openpyxl tokenizer and Tokenizer._items (white space, unary +, name "
              "case), array constants, the emitter outside the arithmetic fragment (reference operators, "
-             "ROW/COLUMN, arrays), Python's parse of the emitted text (PyWF <-> ast.parse, both directions), "
+             "ROW/COLUMN, arrays), the uniqueness of Python's parse of the emitted text (PyWF <-> ast.parse, both "
+             "directions, on random Python trees and on every emitted code string), "
              "evaluation (no C02_eval theorem: the oracle evaluates the intended tree with the implementation's "
              "own excel_operator_operand_fixup per node). Outside the model: OFFSET/INDIRECT/SUBTOTAL emission, "
              "references other than [sheet!]A1[:B2]. A quick run parses ~17k distinct formula texts on both "
